@@ -9,7 +9,7 @@ import sys
 ROOT = os.path.join(os.path.dirname(os.path.dirname(os.path.abspath(__file__))), "coq", "theories")
 
 
-STANDALONE = {"AckProofs", "LocksProofs", "LedgerProofs", "LedgerUpdProofs", "PoolProofs", "WindowProofs", "MicroProofs", "MicroStats"}
+STANDALONE = {"AckProofs", "LocksProofs", "LedgerProofs", "LedgerUpdProofs", "PoolProofs", "WindowProofs", "MicroProofs", "MicroStats", "PrecondProofs"}
 
 
 def statements(modname):
@@ -26,7 +26,8 @@ def emit(pid, title, imports, items, examples=""):
     cache = {}
     lines = ["(** %s. %s" % (pid, title),
              "    This file only pins statements: every theorem restates a lemma of proofs/ verbatim and is closed by it. *)",
-             ("From CacheD Require Import Base Ledger LedgerUpd." if "LedgerUpdProofs" in imports else
+             ("From CacheD Require Import Base Sketch Model Precond.\nFrom CacheD.proofs Require Import Defs." if "PrecondProofs" in imports else
+              "From CacheD Require Import Base Ledger LedgerUpd." if "LedgerUpdProofs" in imports else
               "From CacheD Require Import Base Ledger." if "LedgerProofs" in imports else
               "From CacheD Require Import Base PoolProto." if "PoolProofs" in imports else
               "From CacheD Require Import Base Sketch Model Window Micro.\nFrom CacheD.proofs Require Import Defs ApiProofs HistoryProofs StatsProofs." if "MicroProofs" in imports else
@@ -86,6 +87,9 @@ spec("C08_window", "put_or_update split at its schedule point: the two halves ar
 ])
 spec("C05_ledger", "CacheWeight::update against the sweeper's CacheWeight::delete, one lock-delimited action at a time: the entry guard makes the update atomic", ["LedgerUpdProofs"], [
     ("LedgerUpdProofs", "guarded_update_exact", None), ("LedgerUpdProofs", "unguarded_update_refuted", "guard_is_necessary"),
+])
+spec("C17_precond", "The documented preconditions: what the builders accept is what the theorems assume", ["PrecondProofs"], [
+    ("PrecondProofs", "accepted_config_is_wf", None), ("PrecondProofs", "accepted_upsert_iff_valid", None), ("PrecondProofs", "accepted_put_weight_iff_valid", None),
 ])
 M = "MicroProofs"
 spec("C05_micro", "Accounting under every interleaving of the micro steps of puts, deletes and reads (calls split at every schedule point)", [M], [
